@@ -4,7 +4,7 @@ PROP = {
     "generated": ["EnvelopeTables", "MultiReaderConsts"],
     "lean_modules": ["SwimVerif.Model.Envelope", "SwimVerif.Proofs.Envelope", "SwimVerif.Generated.EnvelopeTables",
                      "SwimVerif.Model.Routing", "SwimVerif.Model.RoutingMon", "SwimVerif.Proofs.Routing",
-                     "SwimVerif.Model.MultiReader", "SwimVerif.Proofs.MultiReader", "SwimVerif.Proofs.MultiReaderReady",
+                     "SwimVerif.Model.MultiReader", "SwimVerif.Proofs.MultiReader", "SwimVerif.Proofs.MultiReaderReady", "SwimVerif.Proofs.MultiReaderPending",
                      "SwimVerif.Generated.MultiReaderConsts"],
     "engines": [
         {"name": "pure", "crate": "core", "bin": "sv-c11", "machine": "c11pure",
@@ -27,7 +27,9 @@ PROP = {
                   "attached to its decoded node and lane, a request to at most one agent channel opened for its node) and "
                   "invalid_not_delivered. (3) MultiReader: per-source FIFO (delivered ++ queued = pushed) and the readiness "
                   "invariant (a stream with something to deliver always has its ready bit set; a stream without a bit holds "
-                  "the waker that sets it) for any number of buckets. Each model is tied to the real code by differential "
+                  "the waker that sets it; Pending is answered only when no ready bit is left, so every stream is then parked) "
+                  "for any number of buckets. The reader never panics on any frame (C11_reader_never_panics) and the body of "
+                  "every notification reaches the downlink unchanged (C11_body_unchanged). Each model is tied to the real code by differential "
                   "execution: ReconEncoder -> peel_envelope_header_str in process; the public RemoteTask over an in-memory "
                   "duplex web socket (ratchet on tokio::io::duplex, paused clock, run to quiescence after every operation); "
                   "the real MultiReader polled by hand with a counting waker; observable-level monitors decide the property on "
@@ -38,8 +40,9 @@ PROP = {
                   "Web socket framing (ratchet), tokio scheduling and the byte channels are sampled through the socket rig, not "
                   "proved. MultiReader bit masks are modelled as finite index sets; its sources are passive queues in the "
                   "manual-poll engine (FramedRead over byte channels is exercised by the socket rig's burst operations). Open: "
-                  "pending_means_all_parked, fair_within_2n_polls. Known defects of the code are modelled as they are and "
-                  "reported as KNOWN-FINDING (FC11-1, FC11-2, F16); the generated flags switch the model when they are repaired.",
+                  "fair_within_2n_polls. The three defects found by this check (FC11-1, FC11-2, and F16 reached through the "
+                  "socket) are repaired in /repo; the shape of each repaired expression is a generated flag, so reverting a "
+                  "repair breaks the corresponding theorem and the monitors report the failing frame.",
     "trusted_base": COMMON_TRUST + [
         "modelled, not verified: nom combinators (the reader model transliterates peel_message/peel_items/string_literal/"
         "parse_text_token for the modelled fragment), ratchet web socket framing, tokio (mpsc, select!, paused clock), "
